@@ -82,6 +82,74 @@ add("C16",
     "every key-value pattern, for each pipeline shape.",
     SYNC_NOTE)
 
+DF_NOTE = ("pandas/numpy are C code: the real streamz aggregation code and wrappers run on mframe, a list-backed model of the "
+           "pandas API slice they use, with exact rational arithmetic; the model is validated differentially against the real "
+           "pandas at the start of every run and every counterexample is re-run on the real pandas before it is reported. "
+           "Batch-length patterns, aggregation and window parameters are sharded; values (unbounded ints), group keys and "
+           "timestamps are symbolic. IEEE rounding is outside the claim.")
+
+add("C06",
+    "CrossHair/z3 symbolic execution of the real aggregation code (aggregations.py, dataframe/core.py wrappers, collection.py) "
+    "on model frames with symbolic values/keys/NaN flags, against the one-shot aggregation over the concatenated prefix",
+    "Bounded symbolic model checking: for every batch-length pattern within the bounds, every value assignment is decided by the "
+    "solver (equalities of means/variances by cross-multiplication over exact rationals).", DF_NOTE)
+
+add("C07",
+    "same engine on windowed aggregations (diff_iloc, diff_loc, diff_align, on_old, windowed groupby) with symbolic values, keys "
+    "and non-decreasing symbolic timestamps, against the aggregation over exactly the rows inside the window",
+    "Bounded symbolic model checking over values/keys/timestamps for every batch pattern and window size in the bounds.", DF_NOTE)
+
+add("C11",
+    "same engine on rolling / cumulative / expanding / ewm accumulators: every composition of a table's rows into batches, "
+    "compared with the one-pass result (ewm against the closed form with exact rational weights)",
+    "Bounded symbolic model checking over values and timestamps for every composition of <= 4 (quick) / 6 (thorough) rows.", DF_NOTE)
+
+add("C12",
+    "same engine: uninterrupted run vs a fresh pipeline seeded with the state captured (by reference) after every batch",
+    "Bounded symbolic model checking over values/keys/timestamps for every cut point of every batch pattern in the bounds.", DF_NOTE)
+
+add("C08",
+    "CrossHair/z3 symbolic execution of timed_window / timed_window_unique / partition(timeout) on the virtual loop with "
+    "symbolic arrival gaps, interval, consumer durations, keys and same-instant ordering",
+    "Bounded symbolic model checking over time: every arrival pattern relative to the tick/timeout instants inside the stated "
+    "ranges is decided by the solver.", "Virtual time is integer ticks.")
+
+add("C09",
+    "CrossHair/z3: one polling step of the real poll_kafka generator from an arbitrary state with UNBOUNDED symbolic offsets; "
+    "solver-driven exploration of bounded production histories and of a crash before every loop callback followed by a restart, "
+    "against an in-memory contract model of confluent_kafka",
+    "Inductive step (any number of polls) + bounded model checking of histories and crash points.",
+    "confluent_kafka is not installed: its documented client contract is modelled (engine/models/fake_confluent_kafka.py).")
+
+add("C15",
+    "CrossHair/z3-driven exploration of all bounded histories of connect/disconnect/destroy/emit/gc on the real nodes, against a "
+    "reference in which the combining node is rebuilt over its current inputs",
+    "Bounded model checking over graph-edit histories (first operation sharded, the rest decided lazily by solver forks).",
+    "CPython reference counting + explicit gc.collect() decide when an unreferenced branch dies.")
+
+add("C17",
+    "CrossHair/z3 symbolic execution of from_textfile._run with symbolic text chunks and a symbolic delimiter (arbitrary "
+    "characters, lengths sharded) and symbolic empty polls; filenames._run with a symbolic directory listing per poll",
+    "Bounded symbolic model checking over strings: every content/delimiter equality pattern for every chunking in the bounds.",
+    "File object and glob are in-memory stand-ins.")
+
+add("C18",
+    "CrossHair/z3-driven exploration of all bounded start/stop/advance/complete histories on the real Source classes on the "
+    "virtual loop with an instrumented run()/_run()",
+    "Bounded model checking over lifecycle histories placed at every suspension point of the polling loop.", ASYNC_NOTE)
+
+add("C19",
+    "CrossHair/z3-driven exploration of every (asynchronous, loop) configuration of chains and joins built through the fluent "
+    "API, with thread/IOLoop creation observed through recorders, against a 20-line model of the statement",
+    "Exhaustive (within the sharded node-kind catalogue) model checking of construction-time configurations.",
+    "A Dask default client being present is outside the claim.")
+
+add("C20",
+    "CrossHair/z3-driven exploration of task / scatter / gather completion orders of the real streamz/dask.py nodes on a "
+    "contract model of distributed.Client, against the same template built from the local nodes",
+    "Bounded model checking over cluster completion orders for each segment template.",
+    "The distributed client is modelled (engine/models/model_dask_client.py); producers await emit.")
+
 add("C14",
     "CrossHair/z3 exploration of all schedules (arrival vs consumer completion) over the real latest() code on the virtual loop",
     "Bounded symbolic model checking: every interleaving of up to the stated number of arrivals and consumer completions is explored (solver forks at every schedule choice); CONFIRMED means the path tree was exhausted.",
